@@ -255,7 +255,7 @@ class AnsiString:
             self._s += parsed_str.unformatted_str[last_key:key]
             last_key = key
             for value in value_list:
-                if re.search(r'^[0-9; ]*$', value.sequence):
+                if re.search(r'^[0-9; ]*\Z', value.sequence):
                     graphic_sequences.setdefault(len(self._s), []).append(value)
                 else:
                     self._s += ansi_control_sequence_introducer + value.sequence + value.terminator
